@@ -34,7 +34,11 @@ def scratch(name):
         if rc != 0:
             raise RuntimeError(out)
     else:
-        sh("git checkout -q --detach $(git -C /repo rev-parse HEAD) && git checkout -q -- . && git clean -fdq", cwd=d)
+        sh("git reset -q --hard && git clean -fdq && git checkout -q --detach $(git -C /repo rev-parse HEAD)", cwd=d)
+    rc, head = sh("git rev-parse HEAD", cwd=d)
+    rc2, want = sh("git -C /repo rev-parse HEAD")
+    if head.strip() != want.strip():
+        raise RuntimeError("scratch worktree %s is at %s, /repo at %s" % (d, head.strip(), want.strip()))
     return d
 
 
@@ -67,7 +71,7 @@ def confirm(srcdirs):
             meta = json.load(open(os.path.join(d, "meta.json"))) if os.path.exists(os.path.join(d, "meta.json")) else {}
             if meta.get("failed"):
                 continue
-            sh("git checkout -q -- . && git clean -fdq", cwd=wt)
+            sh("git reset -q --hard && git clean -fdq", cwd=wt)
             crates = sorted(set(crates_of(os.path.join(d, "patch.diff")) + (crates_of(os.path.join(d, "demo.diff")) if os.path.exists(os.path.join(d, "demo.diff")) else [])))
             pk = " ".join("-p " + c for c in crates)
             res = {"crates": crates}
@@ -87,7 +91,7 @@ def confirm(srcdirs):
                     rc, out = sh(f"cargo test {pk} --offline 2>&1", cwd=wt, env=env)
                     res["demo_with_patch"] = test_summary(out)
                     # 3. demo without patch
-                    sh("git checkout -q -- . && git clean -fdq", cwd=wt)
+                    sh("git reset -q --hard && git clean -fdq", cwd=wt)
                     sh(["git", "apply", demo], cwd=wt)
                     rc, out = sh(f"cargo test {pk} --offline 2>&1", cwd=wt, env=env)
                     res["demo_without_patch"] = test_summary(out)
@@ -107,16 +111,20 @@ def confirm(srcdirs):
                     "demo_tests_failing_with_patch": res["demo_with_patch"]["failed"],
                     "repo_head": sh(["git", "-C", "/repo", "rev-parse", "--short", "HEAD"])[1].strip()}})
                 json.dump(meta, open(os.path.join(dst, "meta.json"), "w"), indent=1)
-    sh("git checkout -q -- . && git clean -fdq", cwd=wt)
+    sh("git reset -q --hard && git clean -fdq", cwd=wt)
 
 
 def evaluate(ids):
     override = None
-    if ids and ids[0].startswith("--checks="):
-        override = ids[0].split("=", 1)[1].split(",")
+    wtname = "eval"
+    while ids and ids[0].startswith("--"):
+        if ids[0].startswith("--checks="):
+            override = ids[0].split("=", 1)[1].split(",")
+        elif ids[0].startswith("--wt="):
+            wtname = ids[0].split("=", 1)[1]      # several evaluations may run in parallel, one worktree each
         ids = ids[1:]
     sd = os.path.join(VERIF, "seeded")
-    wt = scratch("eval")
+    wt = scratch(wtname)
     names = ids or sorted(os.listdir(sd))
     for name in names:
         d = os.path.join(sd, name)
@@ -125,7 +133,7 @@ def evaluate(ids):
         meta = json.load(open(os.path.join(d, "meta.json")))
         prop = meta.get("property", name.split("-")[0])
         checks = override or ([prop] + [c for c in meta.get("also_check", []) if c != prop])
-        sh("git checkout -q -- . && git clean -fdq", cwd=wt)
+        sh("git reset -q --hard && git clean -fdq", cwd=wt)
         rc, out = sh(["git", "apply", os.path.join(d, "patch.diff")], cwd=wt)
         if rc != 0:
             rc, out = sh(["git", "apply", "--3way", os.path.join(d, "patch.diff")], cwd=wt)
@@ -151,7 +159,7 @@ def evaluate(ids):
         json.dump(result, open(os.path.join(d, "result.json"), "w"), indent=1)
         print(name, "DETECTED" if result["detected"] else "MISSED",
               {c: (v.get("detected"), v.get("with_replay")) for c, v in result["checks"].items()}, flush=True)
-    sh("git checkout -q -- . && git clean -fdq", cwd=wt)
+    sh("git reset -q --hard && git clean -fdq", cwd=wt)
 
 
 if __name__ == "__main__":
